@@ -222,9 +222,9 @@ where
         fn visit_class_element(&mut self, node: &'ast ClassElement) -> ControlFlow<Self::BreakTy> {
             match node {
                 ClassElement::MethodDefinition(m) => {
-                    if self.0 == ContainsSymbol::DirectEval {
-                        return ControlFlow::Continue(());
-                    }
+                    // A direct eval in the method body can reach every binding of the
+                    // enclosing scopes, like one in a nested function.
+                    self.visit_contains_eval(m.contains_direct_eval)?;
 
                     if let ClassElementName::PropertyName(name) = m.name() {
                         name.visit_with(self)
@@ -233,8 +233,29 @@ where
                     }
                 }
                 ClassElement::FieldDefinition(field)
-                | ClassElement::StaticFieldDefinition(field) => field.name.visit_with(self),
-                _ => ControlFlow::Continue(()),
+                | ClassElement::StaticFieldDefinition(field) => {
+                    if self.0 == ContainsSymbol::DirectEval
+                        && let Some(initializer) = &field.initializer
+                    {
+                        initializer.visit_with(self)?;
+                    }
+                    field.name.visit_with(self)
+                }
+                ClassElement::PrivateFieldDefinition(field)
+                | ClassElement::PrivateStaticFieldDefinition(field) => {
+                    if self.0 == ContainsSymbol::DirectEval
+                        && let Some(initializer) = &field.initializer
+                    {
+                        initializer.visit_with(self)?;
+                    }
+                    ControlFlow::Continue(())
+                }
+                ClassElement::StaticBlock(block) => {
+                    if self.0 == ContainsSymbol::DirectEval {
+                        block.body.visit_with(self)?;
+                    }
+                    ControlFlow::Continue(())
+                }
             }
         }
 
@@ -243,9 +264,9 @@ where
             node: &'ast PropertyDefinition,
         ) -> ControlFlow<Self::BreakTy> {
             if let PropertyDefinition::MethodDefinition(m) = node {
-                if self.0 == ContainsSymbol::DirectEval {
-                    return ControlFlow::Continue(());
-                }
+                // A direct eval in the method body can reach every binding of the enclosing
+                // scopes, like one in a nested function.
+                self.visit_contains_eval(m.contains_direct_eval)?;
 
                 if self.0 == ContainsSymbol::MethodDefinition {
                     return ControlFlow::Break(());
